@@ -270,7 +270,7 @@ theorem requests_in_scope_seed (S : SF) (I : IF) (cfg : Cfg) (norm : String → 
 def okPost (S : SF) : Bool :=
   S.redirectStatuses == [300, 301, 302, 303, 307, 308] && S.postOnlyArchived && S.redirectLimitOp == .ge &&
   S.redirectLimitCompletes && S.redirectChildFields && S.depthCutOp == .gt && S.depthCut == 2 && S.depthCutShape &&
-  S.depthOneHtmlRule && S.disableAssetsRule && S.only200Extracted && S.assetsBecomeChildren && S.outlinkDomainsCrawlRule &&
+  S.depthOneHtmlRule && S.disableAssetsRule == "whenNoHops" && S.only200Extracted && S.assetsBecomeChildren && S.outlinkDomainsCrawlRule &&
   S.outlinksIncludeAssetOutlinks && S.postCompletionRule && S.postWorksAtMaxDepth && S.outlinkHopsOp == .lt &&
   S.outlinkGuardShape && S.outlinkHopsPlusOne && S.assetHopsSame && S.assetOutlinkHopsPlusOne && S.assetSelfDuplicateRemoved &&
   S.assetGuardShape
